@@ -317,3 +317,27 @@ def image(ctx, cls, shape, n_channels=1, mask=None, landmarks=0, tag='im', dtype
         pts = ctx.reals('%s_lm%d' % (tag, k), (3, d))
         o.landmarks['g%d' % k] = S.PointCloud(pts) if k % 2 == 0 else S.PointUndirectedGraph.init_from_edges(pts, np.array([[0, 1], [1, 2]]))
     return o
+
+
+def rational_rotation(ctx, d, tag):
+    """every proper rotation of R^d through a constraint-free rational
+    parametrisation (so that orthogonality is a rational identity):
+    d=2: (a,b) != 0 -> angle 2*atan2(b,a);  d=3: any non-zero quaternion q ->
+    R(q)/|q|^2 (covers all of SO(3))."""
+    if d == 2:
+        a, b = ctx.real(tag + '_a'), ctx.real(tag + '_b')
+        n2 = a * a + b * b
+        ctx.assume(n2 != 0, 'rotation parameter non-zero')
+        c, s = (a * a - b * b) / n2, 2 * a * b / n2
+        R = np.empty((2, 2), dtype=object if ctx.sym else float)
+        R[0, 0], R[0, 1], R[1, 0], R[1, 1] = c, -s, s, c
+        return R
+    q = [ctx.real('%s_q%d' % (tag, i)) for i in range(4)]
+    n2 = q[0] * q[0] + q[1] * q[1] + q[2] * q[2] + q[3] * q[3]
+    ctx.assume(n2 != 0, 'quaternion non-zero')
+    w, x, y, z = q
+    R = np.empty((3, 3), dtype=object if ctx.sym else float)
+    R[0, 0] = (w * w + x * x - y * y - z * z) / n2; R[0, 1] = 2 * (x * y - z * w) / n2; R[0, 2] = 2 * (x * z + y * w) / n2
+    R[1, 0] = 2 * (x * y + z * w) / n2; R[1, 1] = (w * w - x * x + y * y - z * z) / n2; R[1, 2] = 2 * (y * z - x * w) / n2
+    R[2, 0] = 2 * (x * z - y * w) / n2; R[2, 1] = 2 * (y * z + x * w) / n2; R[2, 2] = (w * w - x * x - y * y + z * z) / n2
+    return R
